@@ -40,7 +40,7 @@ PROP_FILE = "props/C12.v"
 MODEL_TARGETS = ["theories/Stats.vo"]
 THEOREMS = ["C12_run_guard", "C12_groups_partition", "C12_rows_are_the_groups", "C12_row_statistics",
             "C12_stat_ok_unfold", "C12_stdev_cell", "C12_cell_rounding", "C12_shares", "C12_active",
-            "C12_active_true_extremes", "C12_export_agrees", "C12_stages_after_stats"]
+            "C12_active_true_extremes", "C12_export_agrees", "C12_stages_after_stats", "C12_csv_next_to_output"]
 ALLOWED_AXIOMS = []
 MANIFEST = {
     "text": "Proof. Coq theorems over an executable model (Stats.v) of calculate_stats / StatsExtractionContext.drain "
